@@ -11,6 +11,10 @@ import sys
 
 import iso8601
 import pyparsing as pp
+
+# Nested lists, dicts and grids are alternatives of alternatives: without
+# memoisation each level of nesting doubles the work (2^depth).
+pp.ParserElement.enablePackrat()
 import six
 
 # Bring in special Project Haystack types and time zones
